@@ -66,7 +66,7 @@ Inductive pyval :=
 | PArr (dt : dtype) (l : list pyval)      (* 1-d numpy array *)
 | PObj (tid : nat) (slots : list pyval).  (* instance: one slot per field; inactive union option = PNone *)
 
-Inductive exc := ValueError | TypeError | OverflowError | AttributeError.
+Inductive exc := ValueError | TypeError | OverflowError | AttributeError | IndexError.
 Inductive res (A : Type) := Ok (a : A) | Raise (e : exc).
 Arguments Ok {A} a.
 Arguments Raise {A} e.
@@ -363,7 +363,8 @@ Definition cmp_len (c : cmpop) (n cap : nat) : bool :=
 Definition is_bytes (x : pyval) : bool := match x with PBytes _ => true | _ => false end.
 
 (* macro assign_array(f, src): the value bound to self._f, or the exception *)
-Definition assign_array (fixed : bool) (cap : nat) (strlike : bool) (e : etype) (x : pyval) : res pyval :=
+Definition assign_array_with (conv : dtype -> pyval -> res (list pyval))
+           (fixed : bool) (cap : nat) (strlike : bool) (e : etype) (x : pyval) : res pyval :=
   let cmp := if fixed then t_cmp_fixed T else t_cmp_var T in
   let dt := dtype_of e in
   let x1 := if strlike then match x with PStr s => PBytes (utf8_encode s) | _ => x end else x in
@@ -372,7 +373,7 @@ Definition assign_array (fixed : bool) (cap : nat) (strlike : bool) (e : etype) 
       if q || forallb (elem_in_dsdl_range e) l then Ok (PArr dt l) else Raise ValueError in
   let slow (y : pyval) : res pyval :=
       if int_src_ok e y then
-        l <- np_array dt y ;;                                              (* np.array(src, dt).flatten() *)
+        l <- conv dt y ;;                                                  (* np.array(src, dt).flatten() *)
         if negb (t_len_slow T) || cmp_len cmp (length l) cap
         then (if float_src_ok e y then chk l else Raise ValueError)
         else Raise ValueError
@@ -388,6 +389,9 @@ Definition assign_array (fixed : bool) (cap : nat) (strlike : bool) (e : etype) 
       else slow x1
   | _ => slow x1
   end.
+
+(* the generated code with the model of NumPy's conversion plugged in; PyObjLaws.v states the laws of `conv` the proofs rely on *)
+Definition assign_array : bool -> nat -> bool -> etype -> pyval -> res pyval := assign_array_with np_array.
 
 (* ------------------------------------------------------------ scalar setters *)
 Definition set_prim (k : skind) (x : pyval) : res pyval :=
@@ -878,6 +882,113 @@ Fixpoint trace (tid : nat) (o : pyval) (ops : list op) : list (pyval * option ex
   match ops with
   | [] => []
   | p :: r => let s := step tid o p in s :: trace tid (fst s) r
+  end.
+
+(* ------------------------------------------------------------ writes that bypass the setters (round 5) *)
+(* NumPy `a[j] = v` on a 1-d array of dtype dt (v a Python scalar): converted like an element of np.array([...], dt) -- a Python int
+   outside an integer dtype raises OverflowError -- and stored IN PLACE; no generated code runs, so no DSDL range check.
+   Read-only arrays (np.frombuffer of `bytes`) are outside the model: the harness never writes into them. *)
+Definition np_setitem (dt : dtype) (l : list pyval) (j : nat) (v : pyval) : res (list pyval) :=
+  if Nat.ltb j (length l) then x <- conv_leaf dt v ;; Ok (update_nth j x l) else Raise IndexError.
+
+(* NumPy `a += z` (z a Python int) on an integer array: z must fit the dtype (NumPy 2: OverflowError), the sum wraps around *)
+Definition np_iadd (dt : dtype) (l : list pyval) (z : Z) : res (list pyval) :=
+  match dt with
+  | DU _ | DS _ =>
+      _ <- conv_leaf dt (PInt z) ;;
+      mapM (fun x => match x with PInt a => Ok (PInt (wrap_int dt (a + z))) | _ => Raise TypeError end) l
+  | _ => Raise TypeError                                   (* float / bool / object arrays: not modelled, never generated *)
+  end.
+
+Definition arr_update (slots : list pyval) (i : nat) (f : dtype -> list pyval -> res (list pyval)) : list pyval * option exc :=
+  match nth_error slots i with
+  | Some (PArr dt l) => match f dt l with Ok l' => (update_nth i (PArr dt l') slots, None) | Raise e => (slots, Some e) end
+  | Some _ => (slots, Some TypeError)                     (* inactive union option (None) or not an array *)
+  | None => (slots, Some AttributeError)
+  end.
+
+(* obj.<p1>.<p2>...: apply g to the slots of the instance reached through composite-typed fields; the instances on the way are
+   mutated in place *)
+Fixpoint at_path (fuel : nat) (tid : nat) (slots : list pyval) (path : list nat)
+         (g : comp -> list pyval -> list pyval * option exc) : list pyval * option exc :=
+  match nth_error db tid with
+  | None => (slots, Some AttributeError)
+  | Some c =>
+      match path with
+      | [] => g c slots
+      | p :: rest =>
+          match fuel, nth_error slots p with
+          | S fuel', Some (PObj t sl) =>
+              let '(sl', r) := at_path fuel' t sl rest g in (update_nth p (PObj t sl') slots, r)
+          | _, _ => (slots, Some AttributeError)          (* None (inactive option), a non-instance, no such field *)
+          end
+      end
+  end.
+
+Definition is_fast_bind (c : comp) (i : nat) (x : pyval) : bool :=
+  match nth_error (c_fields c) i, x with
+  | Some (FArr _ _ _ e), PArr dt' _ => dtype_eqb dt' (dtype_of e)
+  | _, _ => false
+  end.
+
+Inductive xop :=
+| XBase (p : op)
+| XSetIn (path : list nat) (i : nat) (e : vexpr)        (* obj.<path>.<field i> = e *)
+| XMutElem (path : list nat) (i j : nat) (e : vexpr)    (* a = obj.<path>.<field i>; a[j] = e   (directly or through a slice view) *)
+| XIAdd (path : list nat) (i : nat) (z : Z)             (* a = obj.<path>.<field i>; a += z *)
+| XAliasMut (i : nat) (a : vexpr) (j : nat) (e : vexpr).  (* a = <ndarray>; obj.<field i> = a; a[j] = e : the same-dtype fast path of
+                                                           assign_array binds the caller's array ("beware of the shared reference") *)
+
+Definition xstep (tid : nat) (o : pyval) (p : xop) : pyval * option exc :=
+  match p with
+  | XBase b => step tid o b
+  | XSetIn path i e =>
+      match eval e, o with
+      | Raise ex, _ => (o, Some ex)
+      | Ok x, PObj t slots => let '(s', r) := at_path (length path) t slots path (fun c sl => set_slot c sl i x) in (PObj t s', r)
+      | Ok _, _ => (o, Some AttributeError)
+      end
+  | XMutElem path i j e =>
+      match eval e, o with
+      | Raise ex, _ => (o, Some ex)
+      | Ok x, PObj t slots =>
+          let '(s', r) := at_path (length path) t slots path (fun _ sl => arr_update sl i (fun dt l => np_setitem dt l j x)) in
+          (PObj t s', r)
+      | Ok _, _ => (o, Some AttributeError)
+      end
+  | XIAdd path i z =>
+      match o with
+      | PObj t slots =>
+          let '(s', r) := at_path (length path) t slots path (fun _ sl => arr_update sl i (fun dt l => np_iadd dt l z)) in
+          (PObj t s', r)
+      | _ => (o, Some AttributeError)
+      end
+  | XAliasMut i a j e =>
+      match eval a, eval e, o, nth_error db tid with
+      | Raise ex, _, _, _ => (o, Some ex)
+      | _, Raise ex, _, _ => (o, Some ex)
+      | Ok xa, Ok x, PObj t slots, Some c =>
+          match set_slot c slots i xa with
+          | (s', Some ex) => (PObj t s', Some ex)
+          | (s', None) =>
+              if is_fast_bind c i xa
+              then let '(s2, r) := arr_update s' i (fun dt l => np_setitem dt l j x) in (PObj t s2, r)   (* aliased: the field sees it *)
+              else (PObj t s', match xa with
+                               | PArr dt l => match np_setitem dt l j x with Ok _ => None | Raise ex => Some ex end
+                               | _ => Some TypeError
+                               end)                                                                    (* copied: it does not *)
+          end
+      | Ok _, Ok _, _, _ => (o, Some AttributeError)
+      end
+  end.
+
+Definition xrun (tid : nat) (ops : list xop) : pyval :=
+  fold_left (fun o p => fst (xstep tid o p)) ops (default_obj tid).
+
+Fixpoint xtrace (tid : nat) (o : pyval) (ops : list xop) : list (pyval * option exc) :=
+  match ops with
+  | [] => []
+  | p :: r => let s := xstep tid o p in s :: xtrace tid (fst s) r
   end.
 
 End Model.
